@@ -322,6 +322,29 @@ Definition pSeq3 {A B C} (p : M A) (q : M B) (r : M C) : M (A * B * C) :=
     end
   end.
 
+Definition pSeq4 {A B C D} (p : M A) (q : M B) (r : M C) (t : M D) : M (A * B * C * D) :=
+  push ;;;
+  x <-- try p ;;;
+  match x with
+  | (None, k) => pop ;;; fail k
+  | (Some a, _) =>
+    y <-- try q ;;;
+    match y with
+    | (None, k) => pop ;;; fail k
+    | (Some b, _) =>
+      z <-- try r ;;;
+      match z with
+      | (None, k) => pop ;;; fail k
+      | (Some c, _) =>
+        w <-- try t ;;;
+        match w with
+        | (None, k) => pop ;;; fail k
+        | (Some d, _) => drop ;;; ret (a, b, c, d)
+        end
+      end
+    end
+  end.
+
 (* pars.Any: alternatives are NOT restored in between; "not pushed" aborts *)
 Fixpoint any_loop {A} (ps : list (M A)) (last : ekind) : M A :=
   match ps with
